@@ -80,6 +80,12 @@ void h_script_vnadata(void)
     STEP_INT("init from fz0 mode", vnadata_init(vdp, VPT_S, 3, 3, 3), wf_vnadata(vdip));
     CHECK(!vnadata_has_fz0(vdp), "init: a successful init leaves ordinary z0 mode");
     STEP_INT("set_all_z0 after init", vnadata_set_all_z0(vdp, (cell_t)z), wf_vnadata(vdip));
+#ifdef S_FORMAT
+    /* the default format installed by vnadata_save / vnadata_load when none was set: vector, then its string */
+    STEP_INT("set_simple_format", _vnadata_set_simple_format(vdip, VPT_S, VNADATA_FORMAT_REAL_IMAG), wf_vnadata(vdip));
+    CHECK(vdip->vdi_format_count == 1 && vdip->vdi_format_vector != NULL && vdip->vdi_format_string != NULL,
+	    "set_simple_format: one descriptor and its string are installed");
+#endif
     STEP_INT("resize shrink", vnadata_resize(vdp, VPT_UNDEF, 1, 2, 1), wf_vnadata(vdip));
     REACH("script finished");
 #if VERIF_FAIL_AT > 0
